@@ -56,10 +56,15 @@ def public_view(m: Model, doc):
     return out
 
 
-def verify(acc, headers, hist, pre=(), label='', close=False, cls='well-formed'):
+def verify(acc, headers, hist, pre=(), label='', close=False, cls='well-formed', blank_at=None):
     """import the history's text, compare the whole tree with the model. Returns (model, doc) or (model, None)."""
     m = X.build(headers, hist, pre, close=close)
     text = m.text()
+    if blank_at is not None:       # blank lines are not rows: same tree
+        ls = text.split('\n')
+        ls.insert(min(blank_at, len(ls) - 1), '')
+        text = '\n'.join(ls)
+        label += '+blank-line'
     case = {'text': text, 'headers': headers, 'via': label}
     acc.count('transitions')
     try:
@@ -120,6 +125,7 @@ def menu(m: Model, n, seed, cap, tier):
            ('gcomment', ('g', A.GCOMM[(n + seed) % len(A.GCOMM)]))]
     out += X.split_rows(m, cap, pairs=True)
     out += X.join_rows(m, multi=True)
+    out += X.mixed_rows(m, cap)
     out += X.term_rows(m)
     out.append(('terminate-all', [A.TERM] * w))
     return out
@@ -205,6 +211,8 @@ def _paths_job(job):
         m, doc = verify(acc, headers, hist, label='path', close=True)
         acc.count('evaluations')
         acc.count('traces')
+        if len(hist) >= 2 and acc.n['evaluations'] % 4 == 0:
+            verify(acc, headers, hist, label='path', close=True, blank_at=1 + acc.n['evaluations'] % (len(hist) + 1))
         mm = X.build(headers, hist, close=False)
         lay = tuple(mm.spines())
         acc.state(('layout', tuple(headers), lay))
@@ -214,7 +222,7 @@ def _paths_job(job):
             return
         n = len(hist)
         rows = [('data', X.content_row(mm, 'd', n, seed))]
-        rows += X.split_rows(mm, cap, pairs=False) + X.join_rows(mm, multi=False) + X.term_rows(mm)
+        rows += X.split_rows(mm, cap, pairs=False) + X.join_rows(mm, multi=False) + X.mixed_rows(mm, cap) + X.term_rows(mm)
         for label, row in rows:
             rec(hist + [row], d - 1)
 
@@ -225,7 +233,7 @@ def _paths_job(job):
 def paths(ctx, headers, depth, seed, cap):
     # split the work by the first two rows
     m0 = Model(headers)
-    firsts = [('data', X.content_row(m0, 'd', 0, seed))] + X.split_rows(m0, cap) + X.join_rows(m0) + X.term_rows(m0)
+    firsts = [('data', X.content_row(m0, 'd', 0, seed))] + X.split_rows(m0, cap) + X.join_rows(m0) + X.mixed_rows(m0, cap) + X.term_rows(m0)
     jobs = []
     a0 = Acc()
     verify(a0, headers, [], label='path', close=True)
@@ -237,7 +245,7 @@ def paths(ctx, headers, depth, seed, cap):
         ctx.merge(a1)
         if m1.width() == 0 or depth < 2:
             continue
-        seconds = [('data', X.content_row(m1, 'd', 1, seed))] + X.split_rows(m1, cap) + X.join_rows(m1) + X.term_rows(m1)
+        seconds = [('data', X.content_row(m1, 'd', 1, seed))] + X.split_rows(m1, cap) + X.join_rows(m1) + X.mixed_rows(m1, cap) + X.term_rows(m1)
         for _, r2 in seconds:
             jobs.append((headers, [r1, r2], depth - 2, seed, cap))
     ctx.pmap(_paths_job, jobs, chunksize=1)
